@@ -33,7 +33,10 @@ impl<'a> ZoneStepRunner<'a> {
         if let Some(tracker) = self._plan.inflight_segments() {
             let inflight = tracker.snapshot();
             for seg in &inflight {
-                if !full_segments.contains(seg) {
+                // A segment is marked in flight when its memtable is queued for flushing; until
+                // the flusher has created its directory there is nothing to read (the rows are
+                // still served from the passive buffer) and scanning it would only fail.
+                if !full_segments.contains(seg) && self._plan.segment_base_dir.join(seg).is_dir() {
                     full_segments.push(seg.clone());
                 }
             }
